@@ -144,6 +144,55 @@ void unit_blocked_matrix(Index n, const std::vector<Index>& idx, const Pattern& 
   }
 }
 
+
+// ignore_nans mode of the blocked unit filter: components whose prescribed value is NaN are not constrained at all
+template<typename DT, int BS>
+void unit_blocked_nans(Index n, Index row, unsigned nanmask, const Pattern& p)
+{
+  typedef LAFEM::DenseVectorBlocked<DT, Index, BS> VT; typedef Tiny::Vector<DT, BS> TV; typedef LAFEM::SparseMatrixBCSR<DT, Index, BS, BS> MT;
+  std::string cfg = "bs=" + str(Index(BS)) + " n=" + str(n) + " row=" + str(row) + " nanmask=" + str(Index(nanmask)) + " A[" + pat_str(p) + "]";
+  auto mk = [&] { LAFEM::UnitFilterBlocked<DT, Index, BS> f(n, true); TV t; for(int c = 0; c < BS; ++c) t[c] = ((nanmask >> c) & 1) ? Math::nan<DT>() : H<DT>::var("g" + str(Index(c)), 3.0 + 0.25 * c); f.add(row, t); return f; };
+  for(int op = 0; op < 4; ++op)
+  {
+    static const char* on[] = {"filter_rhs", "filter_def", "filter_mat", "filter_offdiag_row_mat"};
+    if(op >= 2 && nnz(p) == 0) continue;
+    std::string cn = std::string("unitblocked-ignore-nans ") + on[op] + " " + cfg; if(!H<DT>::want(cn)) continue;
+    H<DT>::begin(cn, "{\"filter\":\"unit_blocked\",\"ignore_nans\":1}");
+    auto f = mk();
+    if(op < 2)
+    {
+      VT v(n); std::vector<DT> vb; for(Index i = 0; i < n * BS; ++i) { DT x = H<DT>::var("v" + str(i), 0.5 - 0.375 * double(i)); v.template elements<LAFEM::Perspective::pod>()[i] = x; vb.push_back(x); }
+      int rc = guarded([&] { if(op == 0) f.filter_rhs(v); else f.filter_def(v); }); H<DT>::fact("completes", rc == 0);
+      if(rc == 0) for(Index i = 0; i < n; ++i) for(int c = 0; c < BS; ++c)
+      {
+        bool con = (i == row) && !((nanmask >> c) & 1);
+        H<DT>::eq("v[" + str(i) + "." + str(Index(c)) + "]", v.template elements<LAFEM::Perspective::pod>()[i * BS + Index(c)], con ? (op == 0 ? H<DT>::var("g" + str(Index(c)), 0) : DT(0)) : vb[i * BS + Index(c)]);
+      }
+    }
+    else
+    {
+      Dense<DT> DA; MT A = make_bcsr<DT, Index, BS, BS, MT>(n, n, p, "a", &DA);
+      int rc = guarded([&] { if(op == 2) f.filter_mat(A); else f.filter_offdiag_row_mat(A); }); H<DT>::fact("completes", rc == 0);
+      if(rc == 0)
+      {
+        Index k = 0;
+        for(Index i = 0; i < n; ++i) for(Index j : p[i])
+        {
+          for(int bi = 0; bi < BS; ++bi) for(int bj = 0; bj < BS; ++bj)
+          {
+            DT e = DA[i * BS + Index(bi)][j * BS + Index(bj)];
+            bool con = (i == row) && !((nanmask >> bi) & 1);
+            if(con) e = (op == 2 && i == j && bi == bj) ? DT(1) : DT(0);
+            H<DT>::eq("A(" + str(i) + "," + str(j) + ")[" + str(Index(bi)) + str(Index(bj)) + "]", A.template val<LAFEM::Perspective::pod>()[k * BS * BS + Index(bi * BS + bj)], e);
+          }
+          ++k;
+        }
+      }
+    }
+    H<DT>::end();
+  }
+}
+
 template<typename DT, int BS>
 void slip(Index n, const std::vector<Index>& idx)
 {
@@ -270,6 +319,9 @@ void run_all()
     mean<DT>(n);
   }
   compositions<DT>();
+  // ignore_nans: every NaN mask of the prescribed block value, 2x2 block-matrix patterns
+  for(unsigned m = 0; m < 4; ++m) for(Index row = 0; row < 2; ++row) for(auto& p : all_patterns(2, 2, 4)) if(nnz(p) == 4 || nnz(p) == 2 || nnz(p) == 0) unit_blocked_nans<DT, 2>(2, row, m, p);
+  { Pattern p = {{0, 1}, {0, 1}}; for(unsigned m = 0; m < 8; ++m) unit_blocked_nans<DT, 3>(2, 1, m, p); }
 }
 
 int main(int argc, char** argv)
